@@ -1380,7 +1380,7 @@ func TestVerifC42(t *testing.T) {
 					if key == "unexpected-exception" {
 						key += ":" + c42NormMsg(obs.ExcMsg)
 					}
-					if rejected != "" {
+					if rejected != "" && (strings.HasPrefix(key, "missing-exception") || strings.HasPrefix(key, "wrong-exception")) {
 						key = "not-rejected:" + rejected
 					}
 					report(idx, key, fmt.Sprintf("%q: differs in %v; observed %s (exception %q); the model allows %s", src, best, c42Show([]c42Outcome{obs.c42Outcome}), obs.ExcMsg, c42Show(m.allowed)), src)
